@@ -347,9 +347,9 @@ func execC02(t *testing.T, cc any, o *Outcome) {
 	format := formatConst(c.Format)
 	switch c.Entry {
 	case "parse", "single":
-		ps := &plainSim{max: budget}
+		ps := &plainSim{max: budget, noGoroutines: true}
 		verifhook.Sim = ps
-		ok := guard(o, what, func() {
+		body := func() {
 			if c.Entry == "single" {
 				tr, err := utils.ReadTreeReader(br, format)
 				if err == nil && tr == nil {
@@ -391,9 +391,50 @@ func execC02(t *testing.T, cc any, o *Outcome) {
 				deliver(ns.FirstTree())
 				ns.IterateTrees(func(tr *tree.Tree, err error) { deliver(tr, err) })
 			}
-		})
+		}
+		ok, needSched := true, false
+		func() {
+			defer func() {
+				if p := recover(); p != nil {
+					if _, is := p.(needsScheduler); !is {
+						panic(p)
+					}
+					needSched = true
+				}
+			}()
+			ok = guard(o, what, body)
+		}()
 		verifhook.Sim = nil
 		o.Steps = ps.ticks + int64(sr.Reads)
+		if needSched {
+			// the reader started a goroutine: repeat the case from the beginning inside the scheduler, where a goroutine that
+			// never finishes is a deadlock of the simulation instead of a real hang
+			o.Probe("single-reader-started-goroutines")
+			sr = &SimReader{Data: []byte(doc), Limit: limit, Chunks: c.Chunks, EndErr: endErr, ErrWithData: c.ErrWithData}
+			br = bufio.NewReaderSize(sr, c.BufSz)
+			ntrees, nerr = 0, 0
+			inner := &Outcome{}
+			res := sched.Run(t, c.Sched.withTicks(400000, budget), func() { guard(inner, what, body) })
+			o.Steps += int64(res.Steps) + res.Ticks
+			o.Viols = append(o.Viols, inner.Viols...)
+			for _, p := range res.Panics {
+				if strings.HasPrefix(p.Value, "verif:") {
+					o.Fail("hang:"+what, "%s: goroutine %s: %s\n%s", what, p.G, p.Value, trimStack(p.Stack))
+					continue
+				}
+				o.Fail("panic:"+normPanic(p.Value, p.Stack), "%s: panic in goroutine %s (kills the process in production): %s\n%s", what, p.G, p.Value, trimStack(p.Stack))
+			}
+			if res.Exit != nil {
+				o.Fail("process-exit:"+what, "%s: the library called os.Exit(%d)", what, res.Exit.Code)
+			}
+			if res.Deadlock && len(res.Panics) == 0 {
+				o.Fail("deadlock:"+what, "%s: the reader waits for goroutines that can never finish: %v", what, res.Blocked)
+			}
+			if res.Budget {
+				o.Fail("step-budget:"+what, "%s: more than %d scheduler decisions", what, res.Steps)
+			}
+			ok = len(o.Viols) == 0
+		}
 		if !ok {
 			outcome = "violation"
 		}
